@@ -1,0 +1,16 @@
+//go:build verif
+
+package x509
+
+// Verification hook for property C07 (chain verification): thin wrapper over
+// unexported code of verify.go. Built only with -tags verif.
+
+// ZVCheckChainForKeyUsage exposes checkChainForKeyUsage.
+func ZVCheckChainForKeyUsage(chain []*Certificate, keyUsages []ExtKeyUsage) bool {
+	return checkChainForKeyUsage(chain, keyUsages)
+}
+
+// ZVIsValid exposes (*Certificate).isValid.
+func (c *Certificate) ZVIsValid(certType CertificateType, currentChain CertificateChain) error {
+	return c.isValid(certType, currentChain)
+}
